@@ -29,6 +29,7 @@ import (
 	"github.com/Fantom-foundation/lachesis-base/gossip/basestream/basestreamseeder"
 	"pgregory.net/rapid"
 
+	"verif/harness/internal/canary"
 	"verif/harness/internal/stats"
 )
 
@@ -259,6 +260,12 @@ func (h *harness) openGate() {
 
 const hardTimeout = 60 * time.Second
 
+// errTimeout: the seeder did not react within hardTimeout (nominal: microseconds). Reported as a
+// violation unless the canary shows that the machine stalled the process.
+type errTimeout struct{ msg string }
+
+func (e errTimeout) Error() string { return e.msg }
+
 // waitFor blocks until cond (evaluated under the lock) holds. While the gate is closed, a stall
 // of stallAfter without any event opens it (the reader loop is then blocked on the pending
 // limit or on a full sender queue; opening early only lowers the pressure, never the soundness).
@@ -275,7 +282,7 @@ func (h *harness) waitFor(what string, cond func() bool) error {
 		}
 		d := time.Until(deadline)
 		if d <= 0 {
-			return fmt.Errorf("timed out after %v waiting for %s", hardTimeout, what)
+			return errTimeout{fmt.Sprintf("timed out after %v waiting for %s", hardTimeout, what)}
 		}
 		if gated && d > stallAfter {
 			d = stallAfter
@@ -660,6 +667,8 @@ func runHistory(t *rapid.T) {
 	h := newHarness(cfg, universe)
 	defer h.stop()
 	m := &model{universe: universe, cfg: cfg, peers: map[string]*mPeer{}}
+	cn := canary.Start()
+	defer cn.Stop()
 
 	var history []string
 	var ops []opDesc
@@ -677,6 +686,10 @@ func runHistory(t *rapid.T) {
 			history = append(history, fmt.Sprintf("unregister(%s)", peer))
 			ops = append(ops, opDesc{Kind: "unregister", Peer: peer})
 			if err := h.unregister(peer); err != nil {
+				if _, ok := err.(errTimeout); ok && cn.Overloaded() {
+					st.Inconclusive()
+					return
+				}
 				fatal("%v", err)
 			}
 			m.unregister(peer)
@@ -730,6 +743,10 @@ func runHistory(t *rapid.T) {
 			MaxChunks:      r.Chunks,
 		}, r.Gated)
 		if err != nil {
+			if _, ok := err.(errTimeout); ok && cn.Overloaded() {
+				st.Inconclusive()
+				return
+			}
 			fatal("%v", err)
 		}
 		history[len(history)-1] += " -> " + describeResponses(o.responses)
@@ -762,6 +779,10 @@ func runHistory(t *rapid.T) {
 	}
 	// quiescent: nothing may arrive any more
 	if err := h.barrier(); err != nil {
+		if _, ok := err.(errTimeout); ok && cn.Overloaded() {
+			st.Inconclusive()
+			return
+		}
 		fatal("%v", err)
 	}
 	h.mu.Lock()
